@@ -140,7 +140,7 @@ func newC03Instance(p c03Prog, yieldAtEncode bool) *c03Instance {
 		in.rec.Hook = coopYield
 	}
 	in.ops, _, _ = p.flat()
-	in.tr = sessiontracker.NewSessionTracker(newWriter(in.rec), nil)
+	in.tr = sessiontracker.NewSessionTracker(newWriter(in.rec), vhLogger)
 	for i, o := range in.ops {
 		if o.K == "login" {
 			in.logins[identityKey(loginFor(i, o).Source)] = i
